@@ -55,6 +55,8 @@ func c12Scenarios(thorough bool) []cmdScn {
 				Calls: []callSpec{{Key: p1, Cmd: 0x8103, TimeoutMs: 3000}, {Key: p1, Cmd: 0x8801, TimeoutMs: 3000}, {Key: p1, Cmd: 0x9206, TimeoutMs: 10}}})
 		}
 	}
+	// more timeouts expiring at once than the completion queue holds, while the writer is busy in a user callback
+	out = append(out, c12BusyTimeouts(4), c12BusyTimeouts(5))
 	return out
 }
 
@@ -94,7 +96,30 @@ func c13Scenarios(thorough bool) []cmdScn {
 				Terms: []termSpec{{Phone: p1, Behaviour: "never", CloseAt: how, PreHB: n}}})
 		}
 	}
+	// the writer is held in a slow user callback while more commands arrive than its queue holds (3), then the peer hangs up
+	for _, k := range []int{4, 5} {
+		s := cmdScn{Name: fmt.Sprintf("c13:busy-writer-then-close:k=%d", k), Disconnect: true, Bound: 1, SlowReplyMs: 120,
+			Terms: []termSpec{{Phone: p1, Behaviour: "never", LocNow: true, CloseAfterMs: 50}}}
+		for i := 0; i < k; i++ {
+			s.Calls = append(s.Calls, callSpec{Key: p1, Cmd: cmdMenu[i%len(cmdMenu)], TimeoutMs: 3000})
+		}
+		out = append(out, s)
+	}
+	// ... or stays, and more timeouts expire than the completion queue holds (3) while the writer is busy
+	out = append(out, c12BusyTimeouts(5))
 	return out
+}
+
+// c12BusyTimeouts: k commands to a silent terminal all expire at T while the connection's writer sits in a slow
+// user callback from T-50ms to T+70ms: every caller must still get its timeout.
+func c12BusyTimeouts(k int) cmdScn {
+	p1 := "13800138000"
+	s := cmdScn{Name: fmt.Sprintf("c12:timeouts-while-writer-busy:k=%d", k), Bound: 1, SlowReplyMs: 120,
+		Terms: []termSpec{{Phone: p1, Behaviour: "never", Expect: k, LocAfterMs: 2950}}}
+	for i := 0; i < k; i++ {
+		s.Calls = append(s.Calls, callSpec{Key: p1, Cmd: cmdMenu[i%len(cmdMenu)], TimeoutMs: 3000})
+	}
+	return s
 }
 
 func init() {
